@@ -10,7 +10,7 @@ from fractions import Fraction
 
 from supcommon import *  # noqa
 
-MODEL_FILES = ["Model/LearnFull", "Model/RunLearnFull", "Proofs/LearnFull", "Proofs/LearnFullOpf", "Proofs/LearnFullExample"]
+MODEL_FILES = ["Model/LearnFull", "Model/LearnFullFloat", "Model/RunLearnFull"]
 
 LEARN_METRICS = ["euclidean", "squared_euclidean", "manhattan", "log_squared_euclidean", "chebyshev", "canberra",
                  "log_euclidean", "bray_curtis"]
@@ -292,12 +292,12 @@ def exact_decisions(qs):
 
 def scope_float_vs_exact(kmax=3, nmax=8):
     """Every confusion matrix with at most nmax validation rows and labels in 0..kmax-1 (top class present): the real
-    opf_accuracy in binary64 against the exact rational.  Returns (matrices, distinct rationals, problems) where a
-    problem is: two inputs with equal rational accuracy but different doubles, or rational order not preserved by the
-    doubles, or a double further than 1e-15 from its rational, or two distinct rationals closer than 2e-4."""
+    opf_accuracy in binary64 against the exact rational.  Returns dict(inputs=[(labels, preds, double)], values=number of
+    distinct rationals, split=[rationals computed as several doubles], problems=[...]) where a problem is: rational order
+    not preserved by the doubles, a double further than 1e-15 from its rational, or two distinct rationals closer than 2e-4."""
     import opfython.math.general as g
     by_q = {}
-    count = 0
+    inputs = []
     for K in range(1, kmax + 1):
         cells = [(a, b) for a in range(K) for b in range(K)]
         for N in range(1, nmax + 1):
@@ -313,12 +313,12 @@ def scope_float_vs_exact(kmax=3, nmax=8):
                 f = float(g.opf_accuracy(np.array(labels), preds))
                 q = exact_accuracy(labels, preds)
                 by_q.setdefault(q, set()).add(f)
-                count += 1
-    problems = []
+                inputs.append((labels, preds, f))
+    problems, split = [], []
     qs = sorted(by_q)
     for q in qs:
         if len(by_q[q]) > 1:
-            problems.append("equal rational accuracy %s computed as different doubles %r" % (q, sorted(by_q[q])))
+            split.append("%s as %r" % (q, sorted(by_q[q])))
         for f in by_q[q]:
             if abs(Fraction(f) - q) > Fraction(1, 10 ** 15):
                 problems.append("double %r is not within 1e-15 of the rational %s" % (f, q))
@@ -327,7 +327,20 @@ def scope_float_vs_exact(kmax=3, nmax=8):
             problems.append("rationals %s < %s but doubles %r, %r" % (a, b, sorted(by_q[a]), sorted(by_q[b])))
         if b - a < Fraction(2, 10 ** 4):
             problems.append("distinct accuracies %s and %s are closer than 2e-4" % (a, b))
-    return count, len(qs), problems
+    return dict(inputs=inputs, values=len(qs), split=split, problems=problems)
+
+
+def random_label_vectors(rng, count):
+    """label / prediction vectors with many classes (numpy's np.sum switches to 8 running sums from 8 classes on and to a
+    recursive split above 128), some classes empty"""
+    out = []
+    for i in range(count):
+        K = rng.choice([2, 3, 5, 7, 8, 9, 12, 16, 17, 24, 40]) if i % 10 else rng.choice([127, 128, 129, 150, 260])
+        n = rng.randint(K, 3 * K)
+        labels = [rng.randrange(K) for _ in range(n - 1)] + [K - 1]
+        preds = [l if rng.random() < 0.5 else rng.randrange(K) for l in labels]
+        out.append((labels, preds))
+    return out
 
 
 def exact_accuracy(labels, preds):
@@ -352,6 +365,26 @@ def exact_accuracy(labels, preds):
 # ----------------------------------------------------------------------------------------
 # the check
 
+FINDING_FLOAT_TIE = os.path.join(VERIF, "findings", "C17_learnfull_float_tie.json")
+
+
+def case_from_desc(d):
+    return Case(d["kind"], d["metric"], d["universe_rows"], d["D"] if d["universe_rows"] is None else
+                metric_matrix(d["metric"], d["universe_rows"]), d["X_train_ids"], d["Y_train"], d["X_val_ids"], d["Y_val"],
+                d["n_iterations"], d["np_seed"])
+
+
+def gen_tie_case(rng, i):
+    """noisy blobs, many iterations: the stream in which equal exact accuracies one ulp apart in binary64 were found"""
+    k = rng.choice([2, 3, 3]); m = rng.randint(5, 8); n = rng.randint(5, 10); dim = rng.randint(1, 2)
+    metric = rng.choice(["euclidean", "manhattan"])
+    Yt, Yv = labels_k(rng, n, k), labels_k(rng, m, k)
+    centers = {c: [rng.random() * 10 for _ in range(dim)] for c in range(k)}
+    noise = rng.choice([3.0, 8.0, 20.0])
+    X = [[c + rng.gauss(0, noise) for c in centers[y]] for y in Yt + Yv]
+    return case_from_points("blob/noisy", metric, X, metric_matrix(metric, X), n, Yt, Yv, rng.randint(4, 10), i)
+
+
 def check(rep, tier, seed):
     """returns the number of violations reported"""
     rng = random.Random(seed + 1717)
@@ -362,94 +395,52 @@ def check(rep, tier, seed):
         nonlocal nviol
         nviol += 1
         if nviol <= 6:
-            rep.violation(what, case.desc(), key=key)
+            rep.violation(what, case.desc() if case is not None else None, key=key)
 
     # ---------------- learn ----------------
     NL = 170 if tier == "quick" else 5000
-    cases, runs, terms = [], [], []
+    cases, runs, qterms, fterms = [], [], [], []
     stats = dict(runs=0, iterations=0, draws=0, runs_with_exchange=0, raised_index_error=0, kinds={}, metrics={},
                  tied_universe=0, classes={}, best_not_first=0, stopped_by_delta=0)
-    i = 0
-    while len(cases) < NL and i < 20 * NL:
-        i += 1
-        case = gen_case(rng, i, tier)
-        if case is None:
-            continue
+
+    def add_case(case):
         out = run_learn_impl(case)
         if out["err"] is not None and not isinstance(out["err"], IndexError):
             viol("SupervisedOPF.learn raised %r" % (out["err"],), case, "learnfull:raises:" + type(out["err"]).__name__)
-            continue
-        cases.append(case); runs.append(out); terms.append(term_learn(case, ranker_of(case)))
+            return
+        rk = ranker_of(case)
+        cases.append(case); runs.append(out)
+        qterms.append(term_learn(case, rk)); fterms.append(term_learn(case, rk).replace("run_learn_full ", "run_learn_full_f ", 1))
         stats["kinds"][case.kind] = stats["kinds"].get(case.kind, 0) + 1
         stats["metrics"][str(case.metric)] = stats["metrics"].get(str(case.metric), 0) + 1
-        offd = [case.D[a][b] for a in range(case.N) for b in range(case.N) if a != b]
+        offd = [case.D[a][b] for a in range(case.N) for b in range(a + 1, case.N)]
         stats["tied_universe"] += 1 if len(set(offd)) < len(offd) else 0
         kk = len(set(case.Yt)); stats["classes"][kk] = stats["classes"].get(kk, 0) + 1
         rep.count_case(("learnfull",) + case.key(), True)
-    name = ("correspondence Model/LearnFull.learn_full (fit, predict, exact accuracy computed inside; only the random draws "
-            "recorded) vs SupervisedOPF.learn: iterations, best iteration, four arrays, kept training set and its forest")
-    fdis = dict(decision_disagreements=0, pair_order_disagreements=0, accuracy_far_from_rational=0, compared_accuracies=0)
-    bad = []
-    try:
-        got = run_cases("C17learnfull", terms, requires=requires, typ="list (list Z)", chunk=100) if terms else []
-    except RuntimeError as ex:
-        rep.obligation(name, False, str(ex))
-        got = None
-    if got is not None:
-        for ci, (case, out, g_) in enumerate(zip(cases, runs, got)):
-            rk = ranker_of(case)
-            flags_ok = all(g_[17]) and all(g_[18])
-            if out["err"] is not None:
-                stats["raised_index_error"] += 1
-                # the real run raised IndexError: the model must say why (no prototype / prediction above max(Y_val))
-                t_ = len(out["accs"])
-                agree = (len(g_[17]) > t_ and all(g_[17][:t_]) and all(g_[18][:t_]) and not (g_[17][t_] and g_[18][t_]))
-                if not agree:
-                    bad.append(ci)
-                    viol("SupervisedOPF.learn raised %r in iteration %d; the model's domain flags are fit_ok=%r acc_ok=%r"
-                         % (out["err"], t_, g_[17], g_[18]), case, "learnfull:raise_flags")
-                continue
-            Xt2, Yt2, Xv2, Yv2 = out["arrays"]
-            best_t = out["best_calls"][-1] if out["best_calls"] else -1
-            expect = ([[best_t, len(out["accs"]), 0], case.ids_of(Xt2), [int(y) for y in Yt2], case.ids_of(Xv2),
-                       [int(y) for y in Yv2]] + forest_rows(case, rk, out["opf"]))
-            stats["runs"] += 1; stats["iterations"] += len(out["accs"]); stats["draws"] += len(case.draws)
-            stats["runs_with_exchange"] += 1 if (case.ids_of(Xt2) != case.Xt or [int(y) for y in Yt2] != case.Yt) else 0
-            stats["best_not_first"] += 1 if best_t > 0 else 0
-            stats["stopped_by_delta"] += 1 if len(out["accs"]) < case.n_iter else 0
-            # binary64 accuracies against the model's exact rationals
-            qs = [Fraction(a, b) for a, b in zip(g_[14], g_[15])]
-            fa = out["accs"]
-            n_ = min(len(qs), len(fa))
-            fdis["compared_accuracies"] += n_
-            if any(abs(Fraction(fa[t]) - qs[t]) > Fraction(1, 10 ** 12) for t in range(n_)):
-                fdis["accuracy_far_from_rational"] += 1
-                viol("opf_accuracy returned %r, the exact value on the model's predictions is %r" % (fa, [str(q) for q in qs]),
-                     case, "learnfull:accuracy_value")
-            if n_ == len(qs) == len(fa):
-                if float_decisions(fa) != exact_decisions(qs):
-                    fdis["decision_disagreements"] += 1
-                    viol("binary64 comparisons of the accuracies %r decide differently from the exact rationals %r "
-                         "(update-best / stop flags %r vs %r)" % (fa, [str(q) for q in qs], float_decisions(fa), exact_decisions(qs)),
-                         case, "learnfull:float_vs_rational")
-                if any(((fa[s] < fa[t]) != (qs[s] < qs[t])) or ((fa[s] == fa[t]) != (qs[s] == qs[t]))
-                       for s in range(n_) for t in range(n_)):
-                    fdis["pair_order_disagreements"] += 1
-                if [1 if x else 0 for x in exact_decisions(qs)[1]] != g_[16]:
-                    viol("stop flags of the model %r differ from the rational recomputation" % (g_[16],), case, "learnfull:stopflags")
-            if g_[:14] != expect or not flags_ok:
-                bad.append(ci)
-                diff = [j for j in range(min(len(expect), 14)) if g_[j] != expect[j]]
-                viol("SupervisedOPF.learn deviates from Model/LearnFull.learn_full run on the same draws: output rows %r differ "
-                     "(0 = best/iterations/draws left, 1-4 arrays, 5-6 kept training set, 7-13 its forest)\n model=%r\n impl =%r"
-                     % (diff, g_[:14], expect), case, "learnfull:learn")
-        rep.obligation(name, not bad, "%d disagreements" % len(bad) if bad else "")
-    rep.corr["learn_full"] = dict(cases=len(cases), disagreements=None if got is None else len(bad), distribution=stats,
-                                  float_vs_rational=fdis)
 
+    # the recorded input on which binary64 and exact accuracies decide differently (always replayed)
+    try:
+        add_case(case_from_desc(json.load(open(FINDING_FLOAT_TIE))["desc"]))
+    except Exception as ex:  # noqa
+        rep.obligation("replay of findings/C17_learnfull_float_tie.json", False, repr(ex))
+    i = 0
+    while len(cases) < NL and i < 20 * NL:
+        i += 1
+        case = gen_tie_case(rng, i) if i % 4 == 0 else gen_case(rng, i, tier)
+        if case is not None:
+            add_case(case)
+    nameq = ("correspondence Model/LearnFull.learn_full at QAcc (fit, predict, EXACT accuracy computed inside; only the random "
+             "draws recorded) vs SupervisedOPF.learn, on every run whose binary64 comparisons decide like the exact ones: "
+             "iterations, best iteration, four arrays, kept training set and its forest")
+    namef = ("correspondence Model/LearnFull.learn_full at FAcc (accuracy and its comparisons in binary64, Model/LearnFullFloat.v) "
+             "vs SupervisedOPF.learn on EVERY run: as above plus every accuracy bit for bit")
+    fdis = dict(compared_accuracies=0, runs_deciding_differently=0, runs_with_equal_rationals_as_different_doubles=0,
+                accuracy_far_from_rational=0, examples=[])
+    badq, badf = [], []
+    lcases, lruns = cases, runs
     # ---------------- prune ----------------
-    NP = 170 if tier == "quick" else 5000
-    cases, runs, terms = [], [], []
+    NP = 210 if tier == "quick" else 5000
+    cases, runs, terms = [], [], []   # prune cases
     pstats = dict(runs=0, raised=0, pruned_something=0, rows_before=0, rows_after=0, kinds={}, mislabelled_kept=0)
     i = 0
     while len(cases) < NP and i < 20 * NP:
@@ -464,16 +455,90 @@ def check(rep, tier, seed):
         cases.append(case); runs.append(out); terms.append(term_prune(case, ranker_of(case)))
         pstats["kinds"][case.kind] = pstats["kinds"].get(case.kind, 0) + 1
         rep.count_case(("prunefull",) + case.key(), True)
+    # one batch of coqc runs for the three model entry points
+    try:
+        allgot = run_cases("C17learnfull", qterms + fterms + terms, requires=requires, typ="list (list Z)", chunk=48)
+        gotq, gotf, got = allgot[:len(qterms)], allgot[len(qterms):len(qterms) + len(fterms)], allgot[len(qterms) + len(fterms):]
+    except RuntimeError as ex:
+        rep.obligation(nameq, False, str(ex))
+        gotq = gotf = got = None
+    pcases, pruns = cases, runs
+    if gotq is not None:
+        for ci, (case, out, gq, gf) in enumerate(zip(lcases, lruns, gotq, gotf)):
+            rk = ranker_of(case)
+            if out["err"] is not None:
+                stats["raised_index_error"] += 1
+                # the real run raised IndexError: the model must say why (no prototype / prediction above max(Y_val))
+                t_ = len(out["accs"])
+                for g_, bad, nm in ((gq, badq, "QAcc"), (gf, badf, "FAcc")):
+                    agree = (len(g_[17]) > t_ and all(g_[17][:t_]) and all(g_[18][:t_]) and not (g_[17][t_] and g_[18][t_]))
+                    if not agree:
+                        bad.append(ci)
+                        viol("SupervisedOPF.learn raised %r in iteration %d; the model's (%s) domain flags are fit_ok=%r acc_ok=%r"
+                             % (out["err"], t_, nm, g_[17], g_[18]), case, "learnfull:raise_flags")
+                continue
+            Xt2, Yt2, Xv2, Yv2 = out["arrays"]
+            best_t = out["best_calls"][-1] if out["best_calls"] else -1
+            expect = ([[best_t, len(out["accs"]), 0], case.ids_of(Xt2), [int(y) for y in Yt2], case.ids_of(Xv2),
+                       [int(y) for y in Yv2]] + forest_rows(case, rk, out["opf"]))
+            stats["runs"] += 1; stats["iterations"] += len(out["accs"]); stats["draws"] += len(case.draws)
+            stats["runs_with_exchange"] += 1 if (case.ids_of(Xt2) != case.Xt or [int(y) for y in Yt2] != case.Yt) else 0
+            stats["best_not_first"] += 1 if best_t > 0 else 0
+            stats["stopped_by_delta"] += 1 if len(out["accs"]) < case.n_iter else 0
+            fa = out["accs"]
+            # (1) the binary64 model: everything, and the accuracies bit for bit
+            facc = [Fraction(a, b) if b else None for a, b in zip(gf[14], gf[15])]
+            if gf[:14] != expect or not (all(gf[17]) and all(gf[18])) or facc != [Fraction(a) for a in fa]:
+                badf.append(ci)
+                diff = [j for j in range(min(len(expect), 14)) if gf[j] != expect[j]]
+                viol("SupervisedOPF.learn deviates from Model/LearnFull.learn_full (binary64 accuracies) run on the same draws: output "
+                     "rows %r differ (0 = best/iterations/draws left, 1-4 arrays, 5-6 kept training set, 7-13 its forest); accuracies "
+                     "model %r impl %r\n model=%r\n impl =%r" % (diff, [float(x) if x is not None else None for x in facc], fa, gf[:14], expect),
+                     case, "learnfull:learn_float")
+            # (2) exact accuracies of the real run: recomputed from the binary64 model's trace is not possible here, so take
+            #     those of the rational model while it still follows the real run, i.e. compare decisions on the doubles
+            #     with decisions on the exact values of the SAME outcomes (rows 14/15 of the rational model agree with the
+            #     real run up to the first differing decision)
+            qs = [Fraction(a, b) for a, b in zip(gq[14], gq[15])]
+            n_ = min(len(qs), len(fa))
+            fdis["compared_accuracies"] += n_
+            same_decisions = (len(qs) == len(fa) and float_decisions(fa) == exact_decisions(qs))
+            fu, fs = float_decisions(fa)
+            qu, qsm = exact_decisions(qs)
+            first_diff = next((t for t in range(n_) if (fu[t], fs[t]) != (qu[t], qsm[t])), None)
+            upto = n_ if first_diff is None else first_diff + 1
+            if any(abs(Fraction(fa[t]) - qs[t]) > Fraction(1, 10 ** 12) for t in range(upto)):
+                fdis["accuracy_far_from_rational"] += 1
+                viol("opf_accuracy returned %r, the exact values on the model's predictions are %r" % (fa, [str(q) for q in qs]),
+                     case, "learnfull:accuracy_value")
+            if any((fa[a] == fa[b]) != (qs[a] == qs[b]) for a in range(upto) for b in range(upto)):
+                fdis["runs_with_equal_rationals_as_different_doubles"] += 1
+            if [1 if x else 0 for x in qsm] != gq[16]:
+                viol("stop flags of the model %r differ from the rational recomputation" % (gq[16],), case, "learnfull:stopflags")
+            if not same_decisions:
+                fdis["runs_deciding_differently"] += 1
+                if len(fdis["examples"]) < 3:
+                    fdis["examples"].append(dict(case=case.desc(), doubles=fa, exact=[str(q) for q in qs[:upto]],
+                                                 best_iteration_real=best_t, best_iteration_exact=gq[0][0]))
+                continue
+            if gq[:14] != expect or not (all(gq[17]) and all(gq[18])):
+                badq.append(ci)
+                diff = [j for j in range(min(len(expect), 14)) if gq[j] != expect[j]]
+                viol("SupervisedOPF.learn deviates from Model/LearnFull.learn_full run on the same draws: output rows %r differ "
+                     "(0 = best/iterations/draws left, 1-4 arrays, 5-6 kept training set, 7-13 its forest)\n model=%r\n impl =%r"
+                     % (diff, gq[:14], expect), case, "learnfull:learn")
+        rep.obligation(nameq, not badq, "%d disagreements" % len(badq) if badq else "")
+        rep.obligation(namef, not badf, "%d disagreements" % len(badf) if badf else "")
+    rep.corr["learn_full"] = dict(cases=len(lcases), disagreements_binary64_model=None if gotq is None else len(badf),
+                                  disagreements_exact_model_on_runs_deciding_alike=None if gotq is None else len(badq),
+                                  distribution=stats, binary64_vs_exact=fdis)
+
+    # ---------------- prune: comparison ----------------
     name = ("correspondence Model/LearnFull.prune_full (fit / predict with relevance marks computed inside) vs "
             "SupervisedOPF.prune: final training set and final forest")
     bad = []
-    try:
-        got = run_cases("C17prunefull", terms, requires=requires, typ="list (list Z)", chunk=100) if terms else []
-    except RuntimeError as ex:
-        rep.obligation(name, False, str(ex))
-        got = None
     if got is not None:
-        for ci, (case, out, g_) in enumerate(zip(cases, runs, got)):
+        for ci, (case, out, g_) in enumerate(zip(pcases, pruns, got)):
             rk = ranker_of(case)
             # round r >= 1 calls opf_accuracy; every round's predict needs a prototype
             fit_flags, acc_flags = g_[11], g_[12]
@@ -497,12 +562,34 @@ def check(rep, tier, seed):
                 viol("SupervisedOPF.prune deviates from Model/LearnFull.prune_full: output rows %r differ (0 = rows left / rounds, "
                      "1-2 final training set, 3-9 final forest)\n model=%r\n impl =%r" % (diff, g_[:10], expect), case, "prunefull:prune")
         rep.obligation(name, not bad, "%d disagreements" % len(bad) if bad else "")
-    rep.corr["prune_full"] = dict(cases=len(cases), disagreements=None if got is None else len(bad), distribution=pstats)
+    rep.corr["prune_full"] = dict(cases=len(pcases), disagreements=None if got is None else len(bad), distribution=pstats)
 
-    # ---------------- binary64 vs exact accuracy on a full small scope ----------------
-    cnt, nq, problems = scope_float_vs_exact(3, 6 if tier == "quick" else 8)
-    rep.obligation("binary64 opf_accuracy orders every pair of validation outcomes (<= %d rows, labels 0..2) like the exact rational, "
-                   "equal rationals give equal doubles, distinct accuracies are > 2e-4 apart (%d confusion matrices, %d values)"
-                   % (6 if tier == "quick" else 8, cnt, nq), not problems, "; ".join(problems[:5]))
-    rep.extra["learnfull_float_scope"] = dict(matrices=cnt, distinct_accuracies=nq, problems=problems[:20])
+    # ---------------- opf_accuracy in binary64: the model's evaluation order against numpy, and binary64 vs exact ----------------
+    nmax = 6 if tier == "quick" else 8
+    sc = scope_float_vs_exact(3, nmax)
+    vecs = [(l, p, None) for l, p in random_label_vectors(rng, 60 if tier == "quick" else 600)]
+    import opfython.math.general as g
+    allin = sc["inputs"] + [(l, p, float(g.opf_accuracy(np.array(l), p))) for l, p, _ in vecs]
+    name = ("correspondence Model/LearnFullFloat.opf_accuracy_ops at binary64 vs g.opf_accuracy, bit for bit: every confusion matrix "
+            "with <= %d rows and labels 0..2, and label vectors with up to 260 classes (numpy's blocked / recursive summation)" % nmax)
+    try:
+        gota = run_cases("C17accf", ["run_acc_f %s %s" % (zlist(l), zlist(p)) for l, p, _ in allin], requires=requires, chunk=300)
+        bada = [k for k, ((l, p, f), (a, b)) in enumerate(zip(allin, gota)) if not b or Fraction(a, b) != Fraction(f)]
+        rep.obligation(name, not bada, "" if not bada else "%d differ; first: labels=%r preds=%r numpy=%r model=%r" % (
+            len(bada), allin[bada[0]][0], allin[bada[0]][1], allin[bada[0]][2], gota[bada[0]]))
+        if bada:
+            viol("g.opf_accuracy(%r, %r) = %r; the binary64 model gives %r" % (allin[bada[0]][0], allin[bada[0]][1], allin[bada[0]][2],
+                                                                              gota[bada[0]]), None, "learnfull:accuracy_float")
+        rep.corr["opf_accuracy_binary64"] = dict(cases=len(allin), disagreements=len(bada))
+    except RuntimeError as ex:
+        rep.obligation(name, False, str(ex))
+    rep.obligation("binary64 opf_accuracy orders any two validation outcomes with DIFFERENT exact accuracies like the rationals, stays "
+                   "within 1e-15 of them, and distinct accuracies are > 2e-4 apart (so the stop test is decided alike): all %d confusion "
+                   "matrices with <= %d rows and labels 0..2, %d distinct values" % (len(sc["inputs"]), nmax, sc["values"]),
+                   not sc["problems"], "; ".join(sc["problems"][:5]))
+    rep.extra["learnfull_binary64_scope"] = dict(
+        matrices=len(sc["inputs"]), distinct_accuracies=sc["values"], problems=sc["problems"][:20],
+        equal_rationals_computed_as_different_doubles=len(sc["split"]), examples=sc["split"][:8],
+        note="an exact accuracy that numpy computes as several doubles lets `acc > max_acc` fire between two iterations of equal "
+             "exact accuracy: SupervisedOPF.learn then keeps the later one (findings/C17_learnfull_float_tie.json)")
     return nviol
